@@ -10,7 +10,7 @@ from drivers.c01 import rand_dir, dexp, theta_classes, sigma_classes, TRANS, PI
 
 def angle_classes(eps, q):
     c = [0.0, 1e-30, 2 * eps * (1 - 2 ** -8), 2 * eps * (1 + 2 ** -8), 1e3 * eps, math.sqrt(eps), 1e-3, 0.5, 1.5, 2.5, 3.0,
-         PI - 1e-1, PI - 1e-3, PI - 1e-5, PI - 1e-7, PI - 1e-9, PI - 1e-12, PI - 1e-15, PI]
+         PI - 1e-1, PI - 1e-3, PI - 1e-5, PI - 1e-7, PI - 1e-9, PI - 1e-12, PI - 1e-15, PI, PI, PI]
     if not q:
         c += [10.0 ** k for k in range(-28, 0, 3)] + [PI - 10.0 ** -k for k in range(2, 16)]
     return c
@@ -30,6 +30,15 @@ def build(rng, ty, cell, dtype):
     ax = rand_dir(rng)
     sh, ch = mp.sin(mp.mpf(a) / 2), mp.cos(mp.mpf(a) / 2)
     q = [float(h * sh * v) for v in ax] + [float(h * ch)]
+    if a == PI:
+        # exact half turns: w is exactly 0 (also exactly representable axes such as (1,0,0) and (0.6,0.8,0)),
+        # or the smallest normal / a subnormal float
+        k = rng.randint(0, 4)
+        if k == 0:
+            q = [1.0, 0.0, 0.0, 0.0]
+        elif k == 1:
+            q = [0.6, 0.8, 0.0, 0.0]
+        q[3] = [0.0, 0.0, 0.0, h * 1e-300, h * 5e-324][k] if k < 5 else 0.0
     t = [p * d for d in rand_dir(rng)]
     sc = [math.exp(s)]
     return {"SO3": q, "SE3": t + q, "RxSO3": q + sc, "Sim3": t + q + sc}[ty]
